@@ -552,7 +552,11 @@ func (e *Env) runRPC() error {
 				}
 			}
 			if step.Container && len(items) > 0 {
-				c.SendContainer(items)
+				if step.Nested {
+					c.SendNested(items)
+				} else {
+					c.SendContainer(items)
+				}
 			}
 		case "push":
 			c := st.conn(step.Server)
